@@ -2,7 +2,7 @@
 (* Scenario generation for C11: which law, on which expression, with which partition. *)
 EXTENDS Gen_Geo
 Row == [t |-> 1, k |-> 2]
-Base == [boundary |-> FALSE, row |-> Row, lo |-> -4, size |-> 1, den |-> 1, nb |-> 8, g |-> 8, d |-> 0,
+Base == [boundary |-> FALSE, row |-> Row, rows |-> <<>>, judge |-> 1, pre |-> <<>>, lo |-> -4, size |-> 1, den |-> 1, nb |-> 8, g |-> 8, d |-> 0,
          mean |-> <<>>, std |-> 0, mean4 |-> <<>>, lo4 |-> 0, dim |-> 2, blo4 |-> <<>>, blen4 |-> <<>>]
 Sq == Par(V2(0, 0), V2(8, 0), V2(0, 8))
 I1 == [k |-> "interval", v |-> "u", lo |-> A0(-4), hi |-> A0(6)]
@@ -25,5 +25,19 @@ Scen ==
     \cup {[Base EXCEPT !.dim = 2, !.blo4 = <<0, 0>>, !.blen4 = <<8, 8>>] @@ [expr |-> Sq, law |-> "lhs", N |-> nn, log |-> "pts", check |-> "lhs"] : nn \in {5, 16}}
     \cup {[Base EXCEPT !.boundary = TRUE] @@ [expr |-> x, law |-> lw, N |-> 2048, log |-> "pts", check |-> IF x.k = "circle" THEN "circlebd" ELSE "polybd"]
              : x \in Prims2 \cup {Par(V2(-10, -2), V2(10, -2), V2(-10, 0)), Tri(V2(-10, -4), V2(10, -4), V2(-10, -2))}, lw \in {"uniform"}}
-ASSUME ndJsonSerialize(IOEnv.OUT_FILE, SetToSeq(Scen)) /\ PrintT(<<"SCENARIOS", Cardinality(Scen)>>)
+\* ---- batches of parameter rows (the points of row `judge` are judged at that row) and histories on one domain object
+UnK == Un(Cir(V2(-5, 0), A1(2, "k")), Par(V2(6, -6), V2(12, -6), V2(6, 6)))        \* disjoint parts; the disc has radius 1/2 + k
+Rows2 == <<[t |-> 1, k |-> 0], [t |-> 1, k |-> 2]>>
+RowsT == <<[t |-> 0, k |-> 0], [t |-> 2, k |-> 0]>>
+IT == [k |-> "interval", v |-> "u", lo |-> A1(-4, "t"), hi |-> A1(2, "t")]
+Pre(lw, cnt) == [law |-> lw, N |-> cnt]
+Scen2 ==
+    {[Base EXCEPT !.g = 16, !.rows = Rows2, !.judge = j, !.row = Rows2[j]] @@ [expr |-> UnK, law |-> "uniform", N |-> 8192, log |-> "boxes", check |-> "uniform2"] : j \in 1..2}
+    \cup {[Base EXCEPT !.dim = 1, !.blo4 = <<-4 + 4 * RowsT[j].t>>, !.blen4 = <<6>>, !.rows = RowsT, !.judge = j, !.row = RowsT[j]]
+             @@ [expr |-> IT, law |-> "lhs", N |-> nn, log |-> "pts", check |-> "lhs"] : nn \in {7, 16}, j \in 1..2}
+    \cup {[Base EXCEPT !.pre = <<Pre("grid", 1600)>>] @@ [expr |-> x, law |-> "grid", N |-> 400, log |-> "boxes", check |-> "grid2"]
+             : x \in {Cir(V2(0, 0), A0(6)), Cu(Cir(V2(0, 0), A0(6)), Sq), An(Cir(V2(0, 0), A0(6)), Tri(V2(-10, -4), V2(6, -8), V2(2, 10))), Sq}}
+    \cup {[Base EXCEPT !.g = 16, !.pre = <<Pre("uniform", 50), Pre("grid", 100)>>] @@ [expr |-> x, law |-> "uniform", N |-> 16384, log |-> "boxes", check |-> "uniform2"]
+             : x \in {Cir(V2(0, 0), A0(6)), Un(Sq, Cir(V2(4, -2), A0(4)))}}
+ASSUME ndJsonSerialize(IOEnv.OUT_FILE, SetToSeq(Scen \cup Scen2)) /\ PrintT(<<"SCENARIOS", Cardinality(Scen \cup Scen2)>>)
 ==========================================================================
